@@ -44,6 +44,7 @@ pub struct Violation {
 	pub case: J,
 }
 
+#[derive(Clone)]
 pub struct Config {
 	pub tier: Tier,
 	pub seed: u64,
@@ -274,6 +275,9 @@ pub fn guard<T>(f: impl FnOnce() -> T) -> Result<T, String> {
 
 /// Runs `n` shards on `threads` worker threads; each gets its shard index and
 /// returns a report; reports are merged in shard order (deterministic).
+/// The property id of the running check (set once by main).
+pub static CURRENT_ID: std::sync::OnceLock<String> = std::sync::OnceLock::new();
+
 pub fn parallel<F>(threads: usize, n: usize, f: F) -> Report
 where
 	F: Fn(usize) -> Report + Sync,
@@ -299,7 +303,16 @@ where
 						let m = LAST_PANIC
 							.with(|p| p.borrow_mut().take())
 							.unwrap_or_else(|| "panic".into());
-						r.inconclusive.push(format!("harness panic in shard {}: {}", i, m));
+						// a panic raised inside the library's own source (outside any guarded call of a monitor)
+						// is the library panicking, not the harness
+						let repo = std::env::var("JSV_REPO_DIR").unwrap_or_else(|_| "/repo".into());
+						if m.contains(&format!(" at {}/src/", repo.trim_end_matches('/'))) {
+							let id = CURRENT_ID.get().cloned().unwrap_or_else(|| "C00".into());
+							r.evaluations += 1;
+							r.violation(format!("{}:library-panic", id), format!("the library panicked during the workload of shard {}: {}", i, m), serde_json::json!({"sub": "library-panic", "message": m}));
+						} else {
+							r.inconclusive.push(format!("harness panic in shard {}: {}", i, m));
+						}
 						r
 					}
 				};
